@@ -267,7 +267,9 @@ def tileset_sources(F, S):
     # the marker buffer: the local std::array<char, 10> that is read from the stream
     markers = [("var", d["n"], d["d"]) for nd in th.nodes if nd["k"] == "DeclStmt" for d in nd.get("decls", [])
                if "array<char, 10>" in (d.get("ct") or d.get("rec") or "")]
-    good = bool(markers) and any(f[0] == "ev" and f[1] == "passed" and any(mentions(f[2], m) for m in markers) and "tilesetHeader" in repr(f[2]) for f in ex)
+    from ..rules_layout import constant_by_role
+    mconst = ("global", constant_by_role(F, "OP2Utility::tilesetHeader", M + "::ReadTilesetHeader"))
+    good = bool(markers) and any(f[0] == "ev" and f[1] == "passed" and any(mentions(f[2], m) for m in markers) and mentions(f[2], mconst) for f in ex)
     # the comparison covers the whole 10-byte marker (array equality, or memcmp over sizeof): a prefix comparison would
     # accept bytes the writer never emits
     whole = False
